@@ -557,7 +557,7 @@ def scenarios_c20(tier, seed):
                     ops += [dict(name="ndef"), dict(name="auth", pw=pw), dict(name="protect", pw=PW("kC", "kC"), rp=not rp, pf=pf),
                             dict(name="auth", pw=pw), dict(name="auth", pw=PW("kC", "kC")), dict(name="ndef")]
                     add(product, ops, "-protect-pf%d-%s%s" % (pf, "rp" if rp else "wp", "-imm" if imm else ""), imm=imm,
-                        nak=rnd.choice(["timeout", "byte"]), init=dict(fmt=rnd.random() < 0.8))
+                        nak=rnd.choice(["timeout", "byte"]), init=dict(fmt=rnd.random() < 0.8, ro=rnd.random() < 0.25))
         # a tag that is already protected: protect() by someone who is not authenticated / who is
         for rp in (False, True):
             for nak in ("timeout", "byte"):
